@@ -29,7 +29,7 @@ PROPS = {
     "C05": [(pending, ["C05_"])],
     "C13": [(chan.C13, ["C13_"]), (transport, ["C13_Transport"]), (clientlife, ["C13_Client"])],
     "C12": [(tcp_stream.C12, ["C12_"])],
-    "C17": [(chan.C17, ["C17_", "C13_NoCrash"])],
+    "C17": [(chan.C17, ["C17_", "C13_NoCrash"]), (clientlife, ["C17_SrvPingIsolated"])],
     "C18": [(srvlife, ["C18_"]), (listener, ["C18_ListenerStops"])],
     "C19": [(clientlife, ["C19_"])],
     "C20": [(mux, ["C20_"])],
